@@ -187,7 +187,7 @@ def schedule(n):
             return state_factor
 
         impl = object.__new__(mm.MPSBackendImpl)
-        impl.config = SimpleNamespace(autosave_dt=float("inf"))
+        impl.config = mps_config(autosave_dt=float("inf"))  # (every MPSConfig option; dt unrelated to the symbolic grid)
         impl.qubit_count = n
         impl.current_time = t0
         impl.target_time = t1
